@@ -174,24 +174,33 @@ Proof.
     + eapply holds_ext; eauto.
 Qed.
 
-Lemma inv_write_dimcoord : forall c st st' v d,
-  Inv st -> write_dimcoord c st = (st', v, d) ->
+Lemma inv_create_dimcoord : forall c st st' v d,
+  Inv st -> create_dimcoord c st = (st', v, d) ->
   Inv st' /\ Ext st st' /\ (exists nd, holds (vt st') v c nd /\ d = hd (DFree 0) nd) /\
   fta st' = fta st /\ fdims st' = fdims st /\ nfree st' = nfree st.
 Proof.
-  intros c st st' v d HI H. unfold write_dimcoord in H.
-  destruct (lookup false c None (seen st)) as [e|] eqn:L.
-  - inversion H; subst; clear H.
-    destruct (inv_add_found false c _ st e HI ltac:(discriminate) L) as [H1 H2].
-    splits; auto.
-    + exists []. simpl. rewrite app_nil_r. reflexivity.
-    + exists (se_nd e). split; [exact H2|reflexivity].
-  - destruct (new_var c [DCoord (length (vt st))] st) as [st1 v1] eqn:N. inversion H; subst; clear H.
-    destruct (inv_new_var _ _ _ _ _ HI N) as (H1 & H2 & H3 & Hv & _ & F & D & NF).
-    destruct (inv_write_bounds (length (vt st)) c [DCoord (length (vt st))] st1 H1) as (H4 & H5 & F2 & D2 & NF2).
-    splits; auto; try congruence.
-    + eapply Ext_trans; eauto.
-    + exists [DCoord (length (vt st))]. split; [|reflexivity]. subst v1. eapply holds_ext; eauto.
+  intros c st st' v d HI H. unfold create_dimcoord in H.
+  destruct (new_var c [DCoord (length (vt st))] st) as [st1 v1] eqn:N. inversion H; subst; clear H.
+  destruct (inv_new_var _ _ _ _ _ HI N) as (H1 & H2 & H3 & Hv & _ & F & D & NF).
+  destruct (inv_write_bounds (length (vt st)) c [DCoord (length (vt st))] st1 H1) as (H4 & H5 & F2 & D2 & NF2).
+  splits; auto; try congruence.
+  + eapply Ext_trans; eauto.
+  + exists [DCoord (length (vt st))]. split; [|reflexivity]. subst v1. eapply holds_ext; eauto.
+Qed.
+
+Lemma inv_write_dimcoord : forall fx c used st st' v d,
+  Inv st -> write_dimcoord fx c used st = (st', v, d) ->
+  Inv st' /\ Ext st st' /\ (exists nd, holds (vt st') v c nd /\ d = hd (DFree 0) nd) /\
+  fta st' = fta st /\ fdims st' = fdims st /\ nfree st' = nfree st.
+Proof.
+  intros fx c used st st' v d HI H. unfold write_dimcoord in H.
+  destruct (lookup false c None (seen st)) as [e|] eqn:L; [|eapply inv_create_dimcoord; eauto].
+  destruct (fx && dim_used (hd (DFree 0) (se_nd e)) used); [eapply inv_create_dimcoord; eauto|].
+  inversion H; subst; clear H.
+  destruct (inv_add_found false c _ st e HI ltac:(discriminate) L) as [H1 H2].
+  splits; auto.
+  + exists []. simpl. rewrite app_nil_r. reflexivity.
+  + exists (se_nd e). split; [exact H2|reflexivity].
 Qed.
 
 (* ------------------------------------------------------------ lists of constructs *)
@@ -294,8 +303,8 @@ Proof.
   - inversion H; subst. splits; auto; [apply Ext_refl|].
     exists [], []. rewrite !app_nil_r. simpl. auto.
   - destruct oc as [it|].
-    + destruct (write_dimcoord (dimcomp f a it) st) as [[st1 v] d] eqn:W.
-      destruct (inv_write_dimcoord _ _ _ _ _ HI W) as (H1 & H2 & H3 & F & D & NF).
+    + destruct (write_dimcoord fx (dimcomp f a it) used st) as [[st1 v] d] eqn:W.
+      destruct (inv_write_dimcoord _ _ _ _ _ _ _ HI W) as (H1 & H2 & H3 & F & D & NF).
       destruct (IH _ _ _ _ _ _ _ _ _ H1 H) as (H4 & H5 & F2 & D2 & ud & vd & E1 & E2 & H6).
       splits; auto; try congruence; [eapply Ext_trans; eauto|].
       exists (d :: ud), (Some v :: vd). rewrite E1, E2, <- !app_assoc. simpl. splits; auto.
